@@ -86,6 +86,10 @@ def do_op(op, base, target, version, metafile, scratch, plen=1, alt=False, route
             ck = Checker(metafile, tpath(base, target))
             res = ck.results()
             return {"status": "ok", "sig": "%d" % int(round(float(res) * 1000000))}
+        if op == "magnetv":       # through the command line, verbose: logging stays configured afterwards
+            from torrentfile.cli import execute
+            execute(["-v", "magnet", metafile])
+            return {"status": "ok", "sig": "verbose"}
         if op == "magnet":
             from torrentfile.commands import magnet
             return {"status": "ok", "sig": magnet(metafile, version=0)}
@@ -140,7 +144,8 @@ def fresh_main():
     real = sys.stdout
     sys.stdout = open(os.devnull, "w")
     import logging
-    logging.disable(logging.CRITICAL)
+    logging.disable(logging.NOTSET)      # the code's own logging stays as the code configures it (it is process state too)
+    sys.stderr = open(os.devnull, "w")
     res = do_op(req["op"], req["base"], req["target"], req["version"], req["metafile"], req["scratch"],
                 req.get("plen", 1), req.get("alt", False), req.get("route", "lib"), req.get("align", False))
     sys.stdout = real
@@ -151,7 +156,9 @@ def run_history(case):
     sbx = new_sandbox("sy")
     recs = []
     cwd0 = os.getcwd()
-    try:
+    import logging
+    logging.disable(logging.NOTSET)      # (workers mute INFO / DEBUG by default; here the logging configuration is part of
+    try:                                 # the process state under test: a verbose call leaves it changed)
         base = os.path.join(sbx, "p")
         os.makedirs(os.path.join(base, "r", "d"))
         fs, gens = {}, {}
@@ -198,7 +205,9 @@ def run_history(case):
             plen = stp.get("plen", 1)
             if op in ("create", "createfail"):
                 version = stp["version"]
-                mf_in = os.path.join(sbx, "o", "%s-%d.torrent" % (target.replace("/", "_"), n))
+                # (every other history writes a target's metafile to ONE path again and again: what a process remembers
+                # about a metafile path must not outlive the file that was there)
+                mf_in = os.path.join(sbx, "o", "%s-%d.torrent" % (target.replace("/", "_"), n if case["id"] % 2 else 0))
                 os.makedirs(os.path.dirname(mf_in), exist_ok=True)
                 mf_fr = os.path.join(scratch_fr, "m.torrent")
             else:
